@@ -22,15 +22,17 @@ from pathlib import Path
 import common as C
 
 TREES = C.SCRATCH / "streams" / "trees"
-TREE_LAYOUT = b"1"       # bump when the way a tree directory is filled changes (old directories are then ignored)
-MODEL_VO = ["Streams/Stream.vo", "Streams/Seeds.vo", "Streams/StreamProofs.vo", "Streams/SeedsProofs.vo"]
+TREE_LAYOUT = b"2"       # bump when the way a tree directory is filled changes (old directories are then ignored)
+MODEL_VO = ["Streams/Stream.vo", "Streams/Seeds.vo", "Streams/StreamProofs.vo", "Streams/SeedsProofs.vo", "Streams/Info.vo",
+            "Streams/InfoProofs.vo"]
 TRANSLATOR = "translator/py2gallina_streams.py"
 GEN = "Gen_Streams"
 _IMPORT = re.compile(r"^From PV Require Import ((?:Streams\.(?:Gen_Streams|GenAgree)\s*)+)\.\s*$", re.M)
 _COQ_WARN = "-notation-overridden,-deprecated-hint-without-locality,-abstract-large-number,-inexact-float"
 _THM = re.compile(r"^[ \t]*(?:Theorem|Lemma)\s+([A-Za-z0-9_']+)", re.M)
-CLASSES = {"C12": ("MersenneTwister",), "C13": ("SimpleStreamUpdater", "StreamSeedUpdater", "StreamUpdater")}
-AGREE_MODULE = {"C12": "C12Agree", "C13": "C13Agree"}
+CLASSES = {"C12": ("MersenneTwister", "StreamInformation", "StreamSeedInformation"),
+           "C13": ("SimpleStreamUpdater", "StreamSeedUpdater", "StreamUpdater")}
+AGREE_MODULES = {"C12": ("C12Agree", "InfoAgree"), "C13": ("C13Agree",)}
 
 
 def tree_source(text: str) -> str:
@@ -238,7 +240,7 @@ class StreamsTree:
     def _module_of(self, name: str):
         """the module of coq/Streams/GenAgree.v an item belongs to (C12Agree / C13Agree)"""
         text = (C.COQ / "Streams" / "GenAgree.v").read_text()
-        for mod in AGREE_MODULE.values():
+        for mod in [m for ms in AGREE_MODULES.values() for m in ms]:
             a, b = text.find(f"Module {mod}."), text.find(f"End {mod}.")
             if a >= 0 and b > a and re.search(r"^[ \t]*(?:Theorem|Lemma|Definition|Fixpoint)\s+" + re.escape(name) + r"\b", text[a:b], re.M):
                 return mod
@@ -256,17 +258,19 @@ class StreamsTree:
     # -- what a check needs to know
     def agreement_theorems(self, pid: str):
         text = (C.COQ / "Streams" / "GenAgree.v").read_text()
-        mod = AGREE_MODULE[pid]
-        a, b = text.find(f"Module {mod}."), text.find(f"End {mod}.")
-        return _THM.findall(text[a:b]) if 0 <= a < b else []
+        out = []
+        for mod in AGREE_MODULES[pid]:
+            a, b = text.find(f"Module {mod}."), text.find(f"End {mod}.")
+            out += _THM.findall(text[a:b]) if 0 <= a < b else []
+        return out
 
     def broken_for(self, pid: str):
         """None when the regenerated model of this property's classes is proved equal to the hand-written one;
         otherwise a description of what no longer checks."""
         classes = CLASSES[pid]
-        mod = AGREE_MODULE[pid]
+        mods = AGREE_MODULES[pid]
         fails = [f for f in self.info.get("failures", []) if f.get("class") in classes or f.get("class") is None]
-        thms = [f for f in self.failed_theorems if f.get("module") == mod or f["theorem"] == "GenAgree.v"]
+        thms = [f for f in self.failed_theorems if f.get("module") in mods or f["theorem"] == "GenAgree.v"]
         if self.gen_error and not fails:
             return {"stage": "generated file does not compile", "detail": self.gen_error[-1200:], "theorems": []}
         if fails:
@@ -282,17 +286,18 @@ class StreamsTree:
         h = hashlib.sha1()
         for m in sorted(ms, key=lambda r: (r["lines"][0], r["definition"])):
             h.update((m["definition"] + ":" + m["sha1"] + "\n").encode())
-        mod = AGREE_MODULE[pid]
+        mods = AGREE_MODULES[pid]
         return {"translator": f"{TRANSLATOR} (Python ast, fail-closed; module under test not imported)",
                 "source": self.info.get("source"), "source_sha1": self.info.get("source_sha1"),
                 "tree_directory": f".scratch/streams/trees/{self.key}",
                 "translated_methods": [{"method": f"{m['class']}.{m['method']}", "lines": m["lines"], "definition": m["definition"],
-                                        "result_kind": m.get("result_kind")} for m in ms],
+                                        "result_kind": m.get("result_kind"),
+                                        **({"parameter_defaults": m["defaults"]} if m.get("defaults") else {})} for m in ms],
                 "translated_text_sha1": h.hexdigest() if ms else None,
                 "translated_text_sha1_all_classes": self.info.get("translated_text_sha1"),
                 "translation_failures": [f for f in self.info.get("failures", []) if f.get("class") in classes or f.get("class") is None],
                 "agreement_theorems": self.agreement_theorems(pid),
-                "agreement_theorems_not_checking": [f for f in self.failed_theorems if f.get("module") == mod or f["theorem"] == "GenAgree.v"],
+                "agreement_theorems_not_checking": [f for f in self.failed_theorems if f.get("module") in mods or f["theorem"] == "GenAgree.v"],
                 "timing": self.timing}
 
     def props_report(self, pid: str, keep: bool = False) -> dict:
@@ -369,7 +374,7 @@ def report_broken_tie(run: C.Run, tree: StreamsTree, oracle_name: str, extra: di
     what = ("the model regenerated from src/pydsol/core/streams.py is no longer proved equal to the model the "
             f"{run.pid} theorems are about ({b['stage']}): " +
             (b["detail"][:300] if b["stage"] == "translation" else
-             "agreement theorem(s) " + ", ".join(names[:6]) + f" of coq/Streams/GenAgree.v ({AGREE_MODULE[run.pid]}) no longer check") +
+             "agreement theorem(s) " + ", ".join(names[:6]) + f" of coq/Streams/GenAgree.v ({', '.join(AGREE_MODULES[run.pid])}) no longer check") +
             f"; {oracle_name} found no input on which the changed code violates the property")
     body = {"relation": "coq/Streams/GenAgree.v: " + ", ".join(names), "stage": b["stage"], "detail": b["detail"],
             "unchecked_theorems": names, "generated_file": str(tree.dir / f"{GEN}.v"),
